@@ -1,7 +1,13 @@
-// native replay oracle for C06: o5m streams delivered to the Reader in every 1- and 2-cut segmentation (and byte by byte)
+// native replay oracle for C06: o5m and PBF streams delivered to the Reader in every 1- and 2-cut segmentation (and byte by byte)
 #include <osmium/io/compression.hpp>
 #include <osmium/io/file.hpp>
 #include <osmium/io/o5m_input.hpp>
+#include <osmium/io/pbf_input.hpp>
+#include <osmium/io/pbf_output.hpp>
+#include <osmium/io/writer.hpp>
+#include <osmium/builder/osm_object_builder.hpp>
+#include <fstream>
+#include <unistd.h>
 #include <osmium/io/reader.hpp>
 #include <osmium/memory/buffer.hpp>
 #include <osmium/osm.hpp>
@@ -24,19 +30,44 @@ static std::string node(int64_t id, int64_t lon, int64_t lat, const char* k = nu
 static void dataset(std::string& o, unsigned char t, const std::string& b) { o += char(t); varint(o, b.size()); o += b; }
 static std::string header() { const unsigned char m[] = {0xff, 0xe0, 0x04, 'o', '5', 'm', '2'}; return std::string(reinterpret_cast<const char*>(m), sizeof m); }
 
+static const char* g_format = "o5m.gz";
 static std::string run(const std::string& stream, const std::vector<size_t>& cuts) {
     g_cuts = cuts; std::ostringstream out;
-    try { osmium::io::File f{stream.data(), stream.size(), "o5m.gz"}; osmium::io::Reader r{f};
+    try { osmium::io::File f{stream.data(), stream.size(), g_format}; osmium::io::Reader r{f};
         while (auto b = r.read()) for (const auto& o : b.select<osmium::OSMObject>()) { out << osmium::item_type_to_char(o.type()) << o.id(); if (o.type() == osmium::item_type::node) out << '@' << static_cast<const osmium::Node&>(o).location().x() << ',' << static_cast<const osmium::Node&>(o).location().y(); for (const auto& t : o.tags()) out << ' ' << t.key() << '=' << t.value(); out << ';'; }
         r.close(); out << "END";
     } catch (const std::exception& e) { out << "ERROR: " << e.what(); }
     return out.str();
 }
 
+// a small PBF file made with the library's own writer (three blobs: header + two data blocks)
+static std::string make_pbf() {
+    char name[] = "/tmp/c06_pbf_XXXXXX"; const int fd = mkstemp(name); if (fd < 0) return {}; close(fd);
+    { osmium::io::File f{name, "pbf"}; osmium::io::Header h; h.set("generator", "c06"); osmium::io::Writer w{f, h, osmium::io::overwrite::allow};
+      for (int blk = 0; blk < 2; ++blk) { osmium::memory::Buffer buf{4096, osmium::memory::Buffer::auto_grow::yes};
+        for (int i = 1; i <= 5; ++i) { osmium::builder::NodeBuilder nb{buf}; nb.set_id(blk * 10 + i).set_version(1).set_location(osmium::Location{1.0 * i, 2.0 * blk}); nb.set_user("u"); nb.add_tags({{"k", "v"}}); }
+        buf.commit(); w(std::move(buf)); w.flush(); }
+      w.close(); }
+    std::ifstream in{name, std::ios::binary}; std::string data{std::istreambuf_iterator<char>{in}, std::istreambuf_iterator<char>{}}; unlink(name); return data;
+}
+static int pbf_family() {
+    g_format = "pbf.gz";
+    const std::string st = make_pbf(); if (st.empty()) { std::printf("could not create the PBF sample\n"); return 2; }
+    const std::string ref = run(st, {});
+    if (ref.find("ERROR") != std::string::npos) { std::printf("valid PBF stream (%zu bytes) delivered in one piece is rejected: %s\nARGV: pbf\n", st.size(), ref.c_str()); return 1; }
+    std::vector<size_t> all; for (size_t c = 1; c < st.size(); ++c) all.push_back(c);
+    if (run(st, all) != ref) { std::printf("PBF stream delivered one byte at a time gives a different result:\n  %s\n  one piece: %s\nARGV: pbf\n", run(st, all).c_str(), ref.c_str()); return 1; }
+    for (size_t a = 1; a < st.size(); ++a) if (run(st, {a}) != ref) { std::printf("PBF stream (%zu bytes) cut at offset %zu gives a different result:\n  %s\n  one piece: %s\nARGV: pbf\n", st.size(), a, run(st, {a}).c_str(), ref.c_str()); return 1; }
+    for (size_t a = 1; a < st.size(); a += 7) for (size_t b = a + 1; b < st.size(); b += 5) if (run(st, {a, b}) != ref) { std::printf("PBF stream cut at offsets %zu and %zu gives a different result\nARGV: pbf\n", a, b); return 1; }
+    g_format = "o5m.gz";
+    return 0;
+}
+
 int main(int, char**) {
     osmium::io::CompressionFactory::instance().register_compression(osmium::io::file_compression::gzip,
         [](int, osmium::io::fsync) -> osmium::io::Compressor* { return nullptr; }, [](int) -> osmium::io::Decompressor* { return nullptr; },
         [](const char* b, size_t n) -> osmium::io::Decompressor* { return new ChunkDecompressor(b, n); });
+    { const int rc = pbf_family(); if (rc) return rc; }
     std::vector<std::string> streams;
     { std::string s = header(); dataset(s, 0x10, node(1, 10, 20)); streams.push_back(s); streams.push_back(s + char(0xfe)); }                               // tiny file: one node with a 7-byte body
     { std::string s = header(); dataset(s, 0x10, node(1, 10000000, 20000000, "highway", "bus_stop")); dataset(s, 0x10, node(1, 5, -3)); s += char(0xfe); streams.push_back(s); }
